@@ -348,5 +348,72 @@ impl Strategy {
 }
 //@ WRAPPER_END
 
+struct Version { levels: Vec<Level> }
+impl Version {
+    fn level(&self, n: usize) -> (r: Option<&Level>) ensures n < self.levels@.len() ==> r == Some(&self.levels@[n as int]), n >= self.levels@.len() ==> r is None
+    { if n < self.levels.len() { Some(&self.levels[n]) } else { None } }
+}
+struct CompactionState { hidden_set: HiddenSet }
+impl CompactionState { fn hidden_set(&self) -> (r: &HiddenSet) ensures r == &self.hidden_set { &self.hidden_set } }
+
+//@ WRAPPER_BEGIN
+impl Strategy {
+    /// wrapper (generated, R10) around the statements of choose that build an L1+ compaction from pick_minimal_compaction's answer
+    fn l1_plus(&self, version: &Version, state: &CompactionState, level_idx_with_highest_score: usize, level_shift: usize, overshoot_bytes: u64) -> (r: Choice)
+        requires forall|k: int| 0 <= k < version.levels@.len() ==> level_wf(#[trigger] version.levels@[k]),
+            self.target_size <= u64::MAX / 50,
+            // from the scoring part of choose (floats, not under contract): the index comes from a 7-element array, the scored level
+            // is not empty, and the level shift does not exceed it
+            level_idx_with_highest_score < 7, level_idx_with_highest_score < version.levels@.len() ==> version.levels@[level_idx_with_highest_score as int].runs@.len() > 0,
+            level_shift <= level_idx_with_highest_score,
+        ensures r is DoNothing || r is Move || r is Merge,
+            // the destination is the ADJACENT level (no level is skipped), the ids are pick_minimal_compaction's   // @OBL C01.43, C07.20
+            r is Move ==> r->Move_0.dest_level == level_idx_with_highest_score + 1,
+            r is Merge ==> r->Merge_0.dest_level == level_idx_with_highest_score + 1 && level_idx_with_highest_score + 1 < version.levels@.len()
+                && (merge_closed(version.levels@[level_idx_with_highest_score as int].runs@[0].0@, version.levels@[level_idx_with_highest_score + 1].runs@[0].0@, r->Merge_0.table_ids.view())
+                    // or it is a trivial move that was turned into a merge because the level is not one run
+                    || exists|w: Seq<Table>| #[trigger] is_window(version.levels@[level_idx_with_highest_score as int].runs@[0].0@, w) && r->Merge_0.table_ids.view() == ids_of(w)),
+    {
+//@ FROM src/compaction/leveled/mod.rs :: CompactionStrategy for Strategy :: fn choose :: STMTS `let curr_level_index =` .. `Choice` :: OBL C01.43, C07.20
+//@ SUBST `debug_assert ! ( $1 ) ;` ==> ``
+//@ SUBST `. map ( std :: ops :: Deref :: deref )` ==> ``
+        let curr_level_index = level_idx_with_highest_score as u8;
+
+        let next_level_index = curr_level_index + 1;
+
+        let Some(level) = version.level(level_idx_with_highest_score) else {
+            return Choice::DoNothing;
+        };
+
+        let Some(next_level) = version.level(next_level_index as usize) else {
+            return Choice::DoNothing;
+        };
+
+        let Some((table_ids, can_trivial_move)) = pick_minimal_compaction(
+            level.first_run().expect("should have exactly one run"),
+            next_level.first_run(),
+            state.hidden_set(),
+            overshoot_bytes,
+            self.target_size,
+        ) else {
+            return Choice::DoNothing;
+        };
+
+        let choice = CompactionInput {
+            table_ids,
+            dest_level: next_level_index,
+            canonical_level: next_level_index - (level_shift as u8),
+            target_size: self.target_size,
+        };
+
+        if can_trivial_move && level.is_disjoint() {
+            return Choice::Move(choice);
+        }
+        Choice::Merge(choice)
+//@ END
+    }
+}
+//@ WRAPPER_END
+
 } // verus!
 fn main() {}
